@@ -180,10 +180,27 @@ func (kc *Cache[V]) ForEach(k []byte, fn func(e Entry[V]) bool) {
 	defer kc.mu.RUnlock()
 	d := Distance(kc.locus, k)
 	lz := LeadingZeros(d)
-	// everything in these buckets will have lz bits matching k.
-	for i := lz; i < len(kc.buckets); i++ {
-		if !kc.buckets[i].forEach(k, fn) {
+	// bucket lz: its entries share more than lz bits with k, every other entry shares fewer.
+	if lz < len(kc.buckets) {
+		if !kc.buckets[lz].forEach(k, fn) {
 			return
+		}
+	}
+	// The buckets deeper than lz all share exactly lz bits with k.  The entries of bucket i differ
+	// from the locus at bit i: they are nearer to k than everything deeper when k differs from the
+	// locus there too (bit i of d is 1), and farther than everything deeper when it does not.
+	for i := lz + 1; i < len(kc.buckets); i++ {
+		if bitAt(d, i) == 1 {
+			if !kc.buckets[i].forEach(k, fn) {
+				return
+			}
+		}
+	}
+	for i := len(kc.buckets) - 1; i > lz; i-- {
+		if bitAt(d, i) == 0 {
+			if !kc.buckets[i].forEach(k, fn) {
+				return
+			}
 		}
 	}
 	// each bucket will have < lz bits matching k.
@@ -192,6 +209,14 @@ func (kc *Cache[V]) ForEach(k []byte, fn func(e Entry[V]) bool) {
 			return
 		}
 	}
+}
+
+// bitAt returns bit i of x, counting from the most significant bit of x[0]; bits beyond the end are 0.
+func bitAt(x []byte, i int) int {
+	if i < 0 || i/8 >= len(x) {
+		return 0
+	}
+	return int(x[i/8]>>(7-uint(i%8))) & 1
 }
 
 // Closest returns the Entry in the cache where e.Key is closest to key.
